@@ -47,7 +47,7 @@ theorem touch_sim_core {hf : SlotB → SlotB} {dr : Bool} (hg : ∀ sl, (if dr =
       obtain ⟨q, hq, hin'⟩ := hasId_of_AR hsigs hh
       exact her q hq hin'
   exact ⟨hR.T, hR.S, hR.G, ptrs_null hle E hgone hR.C, ptrs_null hle E hgone hR.K, hsigs, hR.ownedT,
-    ptrs_null hle E hgone hR.ownedK, hR.next, hR.depth, hR.steps, hR.trace, hR.k1, hR.k2⟩
+    ptrs_null hle E hgone hR.ownedK, hR.ownedG, hR.next, hR.depth, hR.steps, hR.trace, hR.k1, hR.k2⟩
 
 /-- touching the cells of impl `i` only changes impl `i` -/
 theorem amap_touch_own {off : Nat → Nat} {s : St} (hs : Emit.InvX off s) {i : Nat} {im : Impl} (hi : aget s.impls i = some im)
